@@ -146,6 +146,7 @@ type VMModel struct {
 	Fields                    map[string]*types.Var
 	Problems                  []string
 	EnvParam, ProgParam       types.Object
+	Defs                      *LocalDefs // single-definition locals of package vm (matchers look through them)
 }
 
 // stack/bytecode/... field roles of the VM struct, found by type and use.
@@ -215,6 +216,11 @@ func BuildVMModel(p *core.Program) (*VMModel, string) {
 	if m.Switch == nil || best < 8 {
 		return nil, "dispatch switch over opcodes not found in (*VM).Run"
 	}
+	var files []ast.Node
+	for _, f := range pk.Syntax {
+		files = append(files, f)
+	}
+	m.Defs = SingleDefsOf(info, files...)
 	m.classifyPrims()
 
 	vmMethods := map[*types.Func]*ast.FuncDecl{}
@@ -369,11 +375,14 @@ func (m *VMModel) roleField(role string) *types.Var {
 }
 
 func (m *VMModel) isLenMinus(info *types.Info, e ast.Expr, field string, k int) bool {
-	be, ok := Unparen(e).(*ast.BinaryExpr)
+	if e == nil {
+		return false
+	}
+	be, ok := m.Defs.Resolve(e).(*ast.BinaryExpr)
 	if !ok || be.Op != token.SUB {
 		return false
 	}
-	c, ok := Unparen(be.X).(*ast.CallExpr)
+	c, ok := m.Defs.Resolve(be.X).(*ast.CallExpr)
 	if !ok || len(c.Args) != 1 {
 		return false
 	}
